@@ -123,12 +123,12 @@ def deep_type(v) -> str:
 # ----------------------------------------------------------------------------------------------
 # alphabet
 
-STRS = ["x", "y", "ab", "é", "1", "None", "true", "ff", "5"]
-INTS = [0, 1, -7, 42, 5]
+STRS = ["x", "X", "y", "ab", "é", "1", "None", "true", "ff", "5"]
+INTS = [0, 1, -7, 7, 42, 5]
 BOOLS = [True, False]
 BYTES = [b"x", b"ff", b"\xff", b"\xc3\xa9", b"\xc3", b"1", b"\xed\xa0\x80", b"c3", b"\xf0\x9f\x98\x80", b"\xc0\x80"]
-TUPLES = [(), (1,), ("1",), (1, "a"), (None,), ((1, 2), 3), (b"\xff", True), ("x",), (2,)]
-DICTS = [{}, {"k": 1}, {"b": 1, "a": None}, {"a": (1, 2)}, {"k": 2}, {"z": "q", "y": b"\xff", "x": {"n": None}}]
+TUPLES = [(), (1,), ("1",), (1, "a"), (None,), ((1, 2), 3), (b"\xff", True), ("x",), (2,), ("a", "bc"), ("ab", "c"), (1, 23), (12, 3)]
+DICTS = [{}, {"k": 1}, {"b": 1, "a": None}, {"a": (1, 2)}, {"k": 2}, {"z": "q", "y": b"\xff", "x": {"n": None}}, {"b": 2, "a": None}]
 MALFORMED = ["", ":", "a:b", b"", b":", b"a:b", "x:", ":x"]
 POOLS = {"str": STRS, "int": INTS, "bool": BOOLS, "none": [None], "bytes": BYTES, "tuple": TUPLES, "dict": DICTS}
 TYPES = list(POOLS)
@@ -151,6 +151,9 @@ def pool_type(v) -> str:
 def other_value_same_type(rng, v):
     """a different value of the same pool type (None has none)"""
     pool = [w for w in POOLS[pool_type(v)] if canon(w) != canon(v)]
+    deep = [w for w in pool if deep_type(w) == deep_type(v)]
+    if deep and rng.random() < 0.7:
+        return rng.choice(deep)
     return rng.choice(pool) if pool else None
 
 
@@ -246,17 +249,24 @@ def param_key(kind, name):
 # ----------------------------------------------------------------------------------------------
 # bound tuples and the call forms that produce them
 
-def gen_bound(rng, sig, malformed=False):
-    """values for the named parameters (biased to the default when there is one), extra positionals, extra keywords"""
+SCALAR_TYPES = ["str", "int", "bool", "none", "bytes"]
+
+
+def gen_bound(rng, sig, malformed=False, scalar=False):
+    """values for the named parameters (biased to the default when there is one), extra positionals, extra keywords;
+    `scalar`: only str/int/bool/None/bytes and exactly one extra positional, so that every field of a generated
+    template (except a non-empty **kwargs) has a non-empty text without ':'"""
     vals = {}
     for kind, name, d in sig:
         if kind in "pk":
-            if d is not NODEF and rng.random() < 0.5:
+            if d is not NODEF and rng.random() < (0.25 if scalar else 0.5):
                 vals[name] = dec(d)
             else:
-                vals[name] = gen_value(rng, malformed=malformed)
+                vals[name] = gen_value(rng, typ=rng.choice(SCALAR_TYPES) if scalar else None, malformed=malformed)
     extra_pos, extra_kw = [], {}
-    if any(k == "s" for k, _, _ in sig) and rng.random() < 0.5:
+    if scalar and any(k == "s" for k, _, _ in sig):
+        extra_pos = [gen_value(rng, typ=rng.choice(["str", "int", "bool", "bytes"]))]
+    elif any(k == "s" for k, _, _ in sig) and rng.random() < 0.5:
         extra_pos = [gen_value(rng, malformed=malformed) for _ in range(rng.choice([1, 1, 2]))]
     vp_name = next((n for k, n, _ in sig if k == "s"), None)
     if any(k == "w" for k, _, _ in sig) and rng.random() < 0.6:
@@ -292,9 +302,21 @@ def call_forms(rng, sig, bound, limit=12):
                         sh = kw[:]
                         rng.shuffle(sh)
                         forms.append((args, sh))
+    def flip(v):
+        if isinstance(v, dict):
+            return {k: flip(x) for k, x in reversed(list(v.items()))}
+        if isinstance(v, tuple):
+            return tuple(flip(x) for x in v)
+        return v
+
+    # a dict argument written with another insertion order is the same (==) argument
+    for a, kw in list(forms):
+        fa, fkw = [flip(x) for x in a], [(n, flip(x)) for n, x in kw]
+        if [enc(x) for x in fa] != [enc(x) for x in a] or [enc(x) for _, x in fkw] != [enc(x) for _, x in kw]:
+            forms.append((fa, fkw))
     uniq, seen = [], set()
     for a, kw in forms:
-        key = (tuple(canon(x) for x in a), tuple((n, canon(x)) for n, x in kw))
+        key = (tuple(enc(x) for x in a), tuple((n, enc(x)) for n, x in kw))
         if key not in seen:
             seen.add(key)
             uniq.append((a, kw))
